@@ -8,7 +8,7 @@ from typing import Any, Dict, Optional
 
 from .parser import Parser
 from .compiler import Compiler
-from .vm import VM
+from .vm import VM, _ScriptThrow
 from .values import (
     UNDEFINED,
     NULL,
@@ -964,16 +964,22 @@ class Context:
                 # Execute the expression to get the function object
                 vm = VM(self.memory_limit, self.time_limit)
                 vm.globals = self._globals
-                result = vm.run(bytecode_module)
+                outer = self._current_vm
+                result = vm.run(
+                    bytecode_module,
+                    start_time=outer.start_time if outer is not None else None,
+                )
 
                 if isinstance(result, JSFunction):
                     return result
                 else:
                     # Fallback: return a simple empty function
                     return JSFunction("anonymous", params, bytes(), {})
+            except JSError:
+                # A malformed body is a SyntaxError the script can catch; limit
+                # errors pass through untouched
+                raise
             except Exception as e:
-                from .errors import JSError
-
                 raise JSError(f"SyntaxError: {str(e)}")
 
         fn_constructor = JSCallableObject(function_constructor_fn)
@@ -1103,10 +1109,17 @@ class Context:
 
                 vm = VM(ctx.memory_limit, ctx.time_limit)
                 vm.globals = ctx._globals
-                return vm.run(bytecode_module)
+                vm.nested = True
+                outer = ctx._current_vm
+                return vm.run(
+                    bytecode_module,
+                    start_time=outer.start_time if outer is not None else None,
+                )
+            except (JSError, _ScriptThrow):
+                # Syntax errors, script exceptions and limit errors keep their
+                # identity: the caller's interpreter makes them catchable (or not)
+                raise
             except Exception as e:
-                from .errors import JSError
-
                 raise JSError(f"EvalError: {str(e)}")
 
         return eval_fn
